@@ -405,6 +405,10 @@ func (r *Reader) Consume(position, maxPosition int64, maxCount int64) ([]Message
 		case err == nil:
 			position = next
 		case errors.Is(err, io.EOF):
+			if i == 0 {
+				// the index points past the end of the log
+				return nil, errNoMessage
+			}
 			return msgs[:i], nil
 		default:
 			return nil, err
